@@ -37,7 +37,7 @@ SPEC = {
     "props": ["props/C32.v"],
     "corr": ["corr/HsRetry_corr.v"],
     "build_comp": "hsmgr",
-    "comps": [{"comp": "hsretry", "n_quick": 100, "n_thorough": 2500}],
+    "comps": [{"comp": "hsretry", "n_quick": 80, "n_thorough": 800}],
     "trusted": ["model/HsRetry.v is a hand-written mirror of handshake_manager.go (StartHandshake, cachePacket, handleOutbound, "
                 "NextOutboundHandshakeTimerTick, hsTimeout, the completion and restart branches of continueHandshake) over model/Wheel.v "
                 "(C33); tied by the correspondence",
